@@ -14,6 +14,10 @@ CLAIMED = {
          "Unbounded theorems (Props/C23.v): for every edge list over any decidable totally ordered vertex type the model returns one label per edge, the label is connected to the edge's endpoints and is <= every vertex of that component, and two edges share a label iff they are in one component. The Python uses aliased mutable Component objects, so the model is hand-written (store of cells) and every run compares it with the real function on thousands of random edge lists (thorough: plus all edge lists with <=4 edges over 4 vertices); a BFS oracle checks the real function directly.",
          "Trusted: Coq kernel, vm_compute, the hand model's fidelity (sampled by correspondence on every run), order-isomorphic integer encoding of vertices in the harness; the pandas_base impl_map use of the function is oracle-only.",
          "DESIGN.md section 5 C23"),
+ "C06": ("Coq proof about try_to_merge_ops regenerated from data_ops_utils.py by tools/py2v (merged extend = sequential extends, for every assignment pair and every column-local evaluation function); differential oracles for the other simplifications",
+         "Unbounded theorems (Props/C06.v): whenever the regenerated try_to_merge_ops merges two extends, the merged step denotes column for column the same frame as the two steps applied in turn, and assigns exactly their columns -- for all assignment dictionaries (overwriting/repeated assignments included), all frames and all column functions that look only at the expression's columns and the window columns. A source change re-checks the proof (it was unprovable until the fix 6dc26b4). Order_rows elimination and select/drop collapsing are exercised by two implementation-level oracles on every run: chained vs step-by-step evaluation on Pandas, and accept/reject agreement between a simplified prefix and a bare table description (partial: no theorem yet for those two simplifications).",
+         "Trusted: Coq kernel, vm_compute, tools/py2v.py, Model/Extend.v as the meaning of extend, get_columns_used as union of column sets (correspondence-checked). Partial: order_rows elimination / select-collapse are oracle-only.",
+         "DESIGN.md section 5 C06"),
 }
 NOT_YET = "check not built yet (work in progress; see DESIGN.md section 8 build order)"
 
